@@ -53,11 +53,12 @@ Inductive pres :=
 Definition bypass (b : bump) (l : layout) (k : cfg) (base : N) : bool :=
   match limit b with
   | Some L => (l_size l <? L) && (l_size l <=? base) && (L <? k_default k)
-              && (ab_of b =? 0) && (0 <? base)
+              && (ab_of b =? 0)
   | None => false
   end.
 
-(* the iter::from_fn(..).filter_map(..).next() of alloc_layout_slow *)
+(* the iter::from_fn(..).filter_map(..).next() of alloc_layout_slow.  After the
+   candidate of size 0 the iterator ends (tried_zero). *)
 Fixpoint cand_loop (k : cfg) (fuel : nat) (b : bump) (l : layout) (left : option N)
          (min_new base : N) (answers : list (option N)) : list (N * N) * pres :=
   match fuel with
@@ -68,16 +69,18 @@ Fixpoint cand_loop (k : cfg) (fuel : nat) (b : bump) (l : layout) (left : option
         | DNone => ([], PNone)
         | DPanic => ([], PPanic)
         | DSome d =>
-            let base' := base / 2 in
+            let next := fun answers' =>
+              if base =? 0 then ([], PNone)
+              else cand_loop k fuel' b l left min_new (base / 2) answers' in
             if fits left d && layout_ok (d_size d) (d_align d) then
               match answers with
               | [] => ([(d_size d, d_align d)], PStarved)
               | Some data :: _ => ([(d_size d, d_align d)], PChunk d data)
               | None :: rest =>
-                  let r := cand_loop k fuel' b l left min_new base' rest in
+                  let r := next rest in
                   ((d_size d, d_align d) :: fst r, snd r)
               end
-            else cand_loop k fuel' b l left min_new base' answers
+            else next answers
         end
       else ([], PNone)
   end.
